@@ -125,6 +125,9 @@ impl<D: Doc> Root<D> {
   pub fn get_injections<F: Fn(&str) -> Option<D::Lang>>(&self, get_lang: F) -> Vec<Root<D>> {
     let root = self.root();
     let range = self.lang().extract_injections(root);
+    // order injected documents by language name, not by hash order
+    let mut range: Vec<_> = range.into_iter().collect();
+    range.sort_by(|a, b| a.0.cmp(&b.0));
     let roots = range
       .into_iter()
       .filter_map(|(lang, ranges)| {
